@@ -18,6 +18,7 @@ import (
 	"sync"
 	"syscall"
 	"testing"
+	"time"
 
 	"github.com/folbricht/desync"
 	"golang.org/x/sys/unix"
@@ -1456,6 +1457,8 @@ var spec = &hx.Spec[Case]{
 		"entry:dir", "entry:file", "entry:sym", "entry:dev", "result:error", "result:nil", "entry-path-crosses-archive-symlink", "symlink-in-dest-before-the-run"},
 	Gen: genCase,
 	Run: run,
+	// a case that never returns is a verdict (confirmed by a replay in a fresh process), not a timeout of the run
+	Watchdog: hx.Pick(300*time.Second, 600*time.Second),
 }
 
 func TestMain(m *testing.M) {
